@@ -348,4 +348,69 @@ static int ref_field(ref_cursor *c, const uint8_t *name, size_t len)
         if (r == 0) { return 1; }
     }
 }
+/*---------------------------------------------------------------------------*/
+/* Reference rendering of a VALID document (property C14)                      */
+/*---------------------------------------------------------------------------*/
+/* objects as {"name":value,...}, arrays as [v,...], exactly one comma between siblings,
+ * booleans true/false, bytes as "0x<hex>", names and strings quoted verbatim up to a 0x00 byte.
+ * Number formatting is libc's: the caller supplies it (fmt_i64 / fmt_dbl), see stubs/vc_stdio.h. */
+typedef size_t (*ref_fmt_i64_fn)(int64_t, char *);
+typedef size_t (*ref_fmt_dbl_fn)(uint64_t, char *);
+
+static size_t ref_render(const uint8_t *b, size_t n, char *out, size_t omax,
+                         ref_fmt_i64_fn fmt_i64, ref_fmt_dbl_fn fmt_dbl)
+{
+    uint8_t is_arr[REF_MAXSTK]; uint8_t count[REF_MAXSTK]; uint8_t after_name[REF_MAXSTK];
+    size_t sp = 0, pos = 0, o = 0;
+#define REF_PUT(ch) do { if (o < omax) { out[o] = (char) (ch); } o++; } while (0)
+    for (;;) {
+        ref_token t = ref_scan(b, n, pos);
+        if (t.kind == RT_ERR) { return o; }
+        pos += t.len;
+        if (t.kind == RT_OBJ_END || t.kind == RT_ARR_END) {
+            REF_PUT(t.kind == RT_OBJ_END ? '}' : ']');
+            sp--;
+            if (sp == 0) { return o; }
+            continue;
+        }
+        if (sp > 0 && !is_arr[sp - 1] && !after_name[sp - 1]) {     /* field name */
+            if (count[sp - 1] > 0) { REF_PUT(','); }
+            count[sp - 1] = 1;
+            REF_PUT('"');
+            for (size_t i = 0; i < t.pay_len; i++) { if (b[t.pay_off + i] == 0) { break; } REF_PUT(b[t.pay_off + i]); }
+            REF_PUT('"'); REF_PUT(':');
+            after_name[sp - 1] = 1;
+            continue;
+        }
+        if (sp > 0 && is_arr[sp - 1]) { if (count[sp - 1] > 0) { REF_PUT(','); } count[sp - 1] = 1; }
+        if (sp > 0 && !is_arr[sp - 1]) { after_name[sp - 1] = 0; }
+        if (t.kind == RT_OBJ_BEGIN || t.kind == RT_ARR_BEGIN) {
+            REF_PUT(t.kind == RT_OBJ_BEGIN ? '{' : '[');
+            is_arr[sp] = (t.kind == RT_ARR_BEGIN); count[sp] = 0; after_name[sp] = 0; sp++;
+        } else if (t.kind == RT_BOOL) {
+            const char *w = t.ival ? "true" : "false";
+            for (size_t i = 0; w[i]; i++) { REF_PUT(w[i]); }
+        } else if (t.kind == RT_INT) {
+            char tmp[24]; size_t L = fmt_i64(t.ival, tmp);
+            for (size_t i = 0; i < L; i++) { REF_PUT(tmp[i]); }
+        } else if (t.kind == RT_DOUBLE) {
+            char tmp[8]; uint64_t u = 0;
+            for (int i = 0; i < 8; i++) { u |= ((uint64_t) b[t.pay_off + i]) << (8 * i); }
+            size_t L = fmt_dbl(u, tmp);
+            for (size_t i = 0; i < L; i++) { REF_PUT(tmp[i]); }
+        } else if (t.kind == RT_STRING) {
+            REF_PUT('"');
+            for (size_t i = 0; i < t.pay_len; i++) { if (b[t.pay_off + i] == 0) { break; } REF_PUT(b[t.pay_off + i]); }
+            REF_PUT('"');
+        } else if (t.kind == RT_BYTES) {
+            REF_PUT('"'); REF_PUT('0'); REF_PUT('x');
+            for (size_t i = 0; i < t.pay_len; i++) {
+                REF_PUT("0123456789abcdef"[b[t.pay_off + i] >> 4]); REF_PUT("0123456789abcdef"[b[t.pay_off + i] & 15]);
+            }
+            REF_PUT('"');
+        }
+    }
+#undef REF_PUT
+}
+
 #endif
